@@ -89,9 +89,13 @@ RRetract(k) == /\ UNCHANGED <<prog, facts>> /\ last' = [op |-> "rretract", k |->
 (* a pattern that does not parse (the call returns an error); none of them may influence later answers                         *)
 PAgg(form, g) == /\ UNCHANGED <<prog, facts>> /\ last' = [op |-> "pagg", form |-> form, gf |-> g[1], gv |-> g[2]]
 (* "S" is the string "true": it prints like the boolean but satisfies neither comparison (a look-alike of another type) *)
+(* "W1" / "W2": the strings "a b" and "a  b" - literals that differ only in whitespace inside the quotes (field A only) *)
+WGoals == {<<"A", "W1">>, <<"A", "W2">>}
 NextC11 == /\ nops' = nops + 1
            /\ \/ \E f \in Fields, v \in Bools \cup {"abs", "S"} : SetFact(f, v)
+              \/ SetFact("A", "W2")
               \/ \E g \in Atoms, d \in Depths, s \in Strategies, ng \in BOOLEAN, ms \in MaxSols : PQuery(g, d, s, ng, ms)
+              \/ \E g \in WGoals, d \in Depths : PQuery(g, d, "dfs", FALSE, 1)
               \/ \E g \in Atoms, d \in Depths : RQuery(g, d, "dfs")
               \/ \E k \in 1..2 : RRetract(k)
               \/ \E form \in {"pattern", "malformed"}, g \in Atoms : PAgg(form, g)
